@@ -1,0 +1,17 @@
+//go:build verif
+
+package jsonapi
+
+// Verification hooks (build tag "verif"). Nothing here is compiled into a
+// normal build. They give the correspondence harness under /verif access to
+// the unexported skeleton types the unmarshaling code decodes into, so that
+// the model can be run on exactly what encoding/json handed to the library.
+
+// PayloadSkeleton is payloadSkeleton.
+type PayloadSkeleton = payloadSkeleton
+
+// ResourceSkeleton is resourceSkeleton.
+type ResourceSkeleton = resourceSkeleton
+
+// RelationshipSkeleton is relationshipSkeleton.
+type RelationshipSkeleton = relationshipSkeleton
